@@ -1,2 +1,367 @@
 import Engeom.Model.Angles
-theorem C18_placeholder : True := trivial
+import Engeom.Lemmas.RealScalar
+import Mathlib.Tactic.Linarith
+import Mathlib.Tactic.IntervalCases
+/-
+  C18 — Angle normalisation and interval arithmetic are consistent.
+  Property theorems only (helper lemmas about fmod are in Lemmas/RealScalar.lean).
+  All statements are about the model in Engeom/Model/Angles.lean instantiated at ℝ (angles) or at an
+  arbitrary linearly ordered field (scalar intervals).
+-/
+
+open Real
+
+namespace C18
+
+theorem scalar_pi : (Scalar.pi : ℝ) = π := rfl
+theorem twoPi_eq : (twoPi : ℝ) = 2 * π := rfl
+theorem twoPi_pos : (0 : ℝ) < twoPi := by rw [twoPi_eq]; positivity
+
+/-! ### obligations on the regenerated constant -/
+
+/-- `ANGLE_TOL` (regenerated from angles.rs) is a small non-negative number. -/
+theorem angleTol_bounds : (0 : ℝ) ≤ angleTol ∧ (angleTol : ℝ) ≤ 1 / 10 ^ 9 := by
+  unfold angleTol
+  rw [ofRatR]
+  norm_num [Gen.ANGLE_TOL_num, Gen.ANGLE_TOL_den]
+
+/-! ### normalisation -/
+
+/-- `angle_signed_pi` lands in the documented closed range [-π, π]. -/
+theorem signedPi_range (x : ℝ) : -π ≤ angleSignedPi x ∧ angleSignedPi x ≤ π := by
+  have h := fmodR_abs_lt (x := x) twoPi_pos
+  have e1 := scalar_pi
+  have e2 := twoPi_eq
+  have hp := Real.pi_pos
+  unfold angleSignedPi
+  dsimp only
+  split_ifs <;> constructor <;> linarith
+
+/-- …and denotes the same direction: it differs from the input by a whole number of turns. -/
+theorem signedPi_congr (x : ℝ) : ∃ k : ℤ, angleSignedPi x = x + k * (2 * π) := by
+  obtain ⟨k, hk⟩ := fmodR_congr x (twoPi : ℝ)
+  have e2 := twoPi_eq
+  unfold angleSignedPi
+  dsimp only
+  split_ifs
+  · exact ⟨-k - 1, by push_cast; rw [← e2]; linear_combination hk⟩
+  · exact ⟨-k + 1, by push_cast; rw [← e2]; linear_combination hk⟩
+  · exact ⟨-k, by push_cast; rw [← e2]; linear_combination hk⟩
+
+/-- `angle_to_2pi` lands in [0, 2π) (in exact arithmetic; the float code can round up to 2π). -/
+theorem to2pi_range (x : ℝ) : 0 ≤ angleTo2pi x ∧ angleTo2pi x < 2 * π := by
+  have h := fmodR_abs_lt (x := x) twoPi_pos
+  have e2 := twoPi_eq
+  unfold angleTo2pi
+  dsimp only
+  split_ifs <;> constructor <;> linarith
+
+theorem to2pi_congr (x : ℝ) : ∃ k : ℤ, angleTo2pi x = x + k * (2 * π) := by
+  obtain ⟨k, hk⟩ := fmodR_congr x (twoPi : ℝ)
+  have e2 := twoPi_eq
+  unfold angleTo2pi
+  dsimp only
+  split_ifs
+  · exact ⟨-k + 1, by push_cast; rw [← e2]; linear_combination hk⟩
+  · exact ⟨-k, by push_cast; rw [← e2]; linear_combination hk⟩
+
+/-- An angle already in [0, 2π) is returned unchanged. -/
+theorem to2pi_id {x : ℝ} (h0 : 0 ≤ x) (h1 : x < 2 * π) : angleTo2pi x = x := by
+  have hp := Real.pi_pos
+  have hq0 : 0 ≤ x / (2 * π) := by positivity
+  have hq1 : x / (2 * π) < 1 := by rw [div_lt_one (by positivity)]; exact h1
+  have hfl : ⌊x / (2 * π)⌋ = 0 := Int.floor_eq_zero_iff.mpr ⟨hq0, hq1⟩
+  have hf : Scalar.fmod x (twoPi : ℝ) = x := by
+    rw [fmodR_def, twoPi_eq, Real.truncR, if_pos hq0, hfl]; simp
+  unfold angleTo2pi
+  dsimp only
+  rw [hf, if_neg (not_lt.mpr h0)]
+
+/-! ### directed angle between two angles -/
+
+theorem inDirection_range (a b : ℝ) (d : AngleDir) :
+    0 ≤ angleInDirection a b d ∧ angleInDirection a b d ≤ 2 * π := by
+  have ha := signedPi_range a
+  have hb := signedPi_range b
+  have e2 := twoPi_eq
+  have hp := Real.pi_pos
+  unfold angleInDirection
+  cases d <;> dsimp only <;> split_ifs <;> constructor <;> linarith
+
+/-- Rotating the first angle by the result, in the stated direction, gives the second (mod 2π). -/
+theorem inDirection_rotates (a b : ℝ) (d : AngleDir) :
+    ∃ k : ℤ, a + (match d with | .ccw => 1 | .cw => -1) * angleInDirection a b d = b + k * (2 * π) := by
+  obtain ⟨ka, hka⟩ := signedPi_congr a
+  obtain ⟨kb, hkb⟩ := signedPi_congr b
+  have e2 := twoPi_eq
+  unfold angleInDirection
+  cases d <;> dsimp only <;> split_ifs
+  · exact ⟨kb - ka - 1, by push_cast; (try rw [e2]); linear_combination hkb - hka⟩
+  · exact ⟨kb - ka, by push_cast; linear_combination hkb - hka⟩
+  · exact ⟨kb - ka + 1, by push_cast; (try rw [e2]); linear_combination hkb - hka⟩
+  · exact ⟨kb - ka, by push_cast; linear_combination hkb - hka⟩
+
+/-- The clockwise and counter-clockwise directed angles sum to a full turn or are both zero. -/
+theorem inDirection_cw_add_ccw (a b : ℝ) :
+    angleInDirection a b .cw + angleInDirection a b .ccw = 2 * π ∨
+    (angleInDirection a b .cw = 0 ∧ angleInDirection a b .ccw = 0) := by
+  have e2 := twoPi_eq
+  unfold angleInDirection
+  dsimp only
+  rcases lt_trichotomy (angleSignedPi a) (angleSignedPi b) with h | h | h
+  · left; rw [if_pos h, if_neg (not_lt.mpr h.le), e2]; ring
+  · right; rw [h]; simp
+  · left; rw [if_neg (not_lt.mpr h.le), if_pos h, e2]; ring
+
+/-! ### angular intervals -/
+
+/-- The exact set swept from `start` through `angle`. -/
+def Swept (I : AngleInterval ℝ) (a : ℝ) : Prop :=
+  ∃ k : ℤ, I.start ≤ a + k * (2 * π) ∧ a + k * (2 * π) ≤ I.start + I.angle
+
+/-- The same set widened by `ANGLE_TOL` at both ends. -/
+def SweptTol (I : AngleInterval ℝ) (a : ℝ) : Prop :=
+  ∃ k : ℤ, I.start - angleTol ≤ a + k * (2 * π) ∧ a + k * (2 * π) ≤ I.start + I.angle + angleTol
+
+def Canonical (I : AngleInterval ℝ) : Prop :=
+  0 ≤ I.start ∧ I.start < 2 * π ∧ 0 ≤ I.angle ∧ I.angle ≤ 2 * π
+
+theorem new_canonical (s e : ℝ) : Canonical (AngleInterval.new s e) := by
+  have hp := Real.pi_pos
+  have e2 := twoPi_eq
+  unfold AngleInterval.new Canonical
+  split_ifs with h
+  · have := to2pi_range (s + e)
+    refine ⟨this.1, this.2, ?_, ?_⟩
+    · unfold smin sabs; dsimp only; rw [if_pos h]; split_ifs <;> linarith
+    · unfold smin sabs; dsimp only; rw [if_pos h]; split_ifs <;> linarith
+  · have := to2pi_range s
+    have h' := not_lt.mp h
+    refine ⟨this.1, this.2, ?_, ?_⟩
+    · unfold smin; dsimp only; split_ifs <;> linarith
+    · unfold smin; dsimp only; split_ifs <;> linarith
+
+/-- A negative extent means the same set swept backwards. -/
+theorem new_negative_extent (s e : ℝ) (he : e < 0) :
+    AngleInterval.new s e = AngleInterval.new (s + e) (-e) := by
+  unfold AngleInterval.new
+  rw [if_pos he, if_neg (by linarith)]
+  simp [sabs, he]
+
+/-- Soundness: whatever `contains` accepts lies in the swept set widened by the tolerance. -/
+theorem contains_sound (I : AngleInterval ℝ) (hI : Canonical I) (a : ℝ) (h : I.contains a = true) :
+    SweptTol I a := by
+  obtain ⟨k, hk⟩ := to2pi_congr a
+  have e2 := twoPi_eq
+  unfold AngleInterval.contains at h
+  dsimp only at h
+  split_ifs at h with h1
+  · have h2 := of_decide_eq_true h
+    exact ⟨k, by rw [← hk]; exact h1, by rw [← hk]; exact h2⟩
+  · have h2 := of_decide_eq_true h
+    have ht := angleTol_bounds.1
+    refine ⟨k + 1, ?_, ?_⟩
+    · push_cast; have := (to2pi_range a).1; have := hI.2.1; linarith
+    · push_cast; linarith
+
+/-- Completeness: every angle of the exact swept set of a canonical interval is accepted. -/
+theorem contains_complete (I : AngleInterval ℝ) (hI : Canonical I) (a : ℝ) (h : Swept I a) :
+    I.contains a = true := by
+  obtain ⟨k, hk⟩ := to2pi_congr a
+  obtain ⟨m, hm1, hm2⟩ := h
+  obtain ⟨c0, c1, c2, c3⟩ := hI
+  have hr := to2pi_range a
+  have ht := angleTol_bounds.1
+  have hp := Real.pi_pos
+  -- express the witness relative to the normalised angle: a + m·2π = a' + j·2π
+  set a' := angleTo2pi a with ha'
+  have hj : a + m * (2 * π) = a' + ((m - k : ℤ) : ℝ) * (2 * π) := by rw [hk]; push_cast; ring
+  rw [hj] at hm1 hm2
+  set j : ℤ := m - k
+  have j0 : (-1 : ℝ) < j := by nlinarith
+  have j2 : (j : ℝ) < 2 := by nlinarith
+  have j0' : -1 < j := by exact_mod_cast j0
+  have j2' : j < 2 := by exact_mod_cast j2
+  have e2 := twoPi_eq
+  unfold AngleInterval.contains
+  dsimp only
+  rw [← ha']
+  interval_cases j
+  · simp only [Int.cast_zero, zero_mul, add_zero] at hm1 hm2
+    rw [if_pos (by linarith)]
+    exact decide_eq_true (by linarith)
+  · simp only [Int.cast_one, one_mul] at hm1 hm2
+    split_ifs
+    · exact decide_eq_true (by linarith)
+    · exact decide_eq_true (by linarith)
+
+/-- Two canonical intervals whose exact swept sets share an angle are reported as intersecting. -/
+theorem intersects_of_share (I J : AngleInterval ℝ) (hI : Canonical I) (hJ : Canonical J)
+    (a : ℝ) (hIa : Swept I a) (hJa : Swept J a) : I.intersects J = true := by
+  obtain ⟨k, hk1, hk2⟩ := hIa
+  obtain ⟨m, hm1, hm2⟩ := hJa
+  unfold AngleInterval.intersects
+  rcases le_or_gt I.start (J.start + ((k - m : ℤ) : ℝ) * (2 * π)) with h | h
+  · have : I.contains J.start = true :=
+      contains_complete I hI J.start ⟨k - m, h, by push_cast at *; linarith⟩
+    simp [this]
+  · have : J.contains I.start = true :=
+      contains_complete J hJ I.start ⟨m - k, by push_cast at *; linarith, by push_cast at *; linarith⟩
+    simp [this]
+
+/-- If two intervals are reported as intersecting, their tolerance-widened sets share an angle. -/
+theorem share_of_intersects (I J : AngleInterval ℝ) (hI : Canonical I) (hJ : Canonical J)
+    (h : I.intersects J = true) : ∃ a, SweptTol I a ∧ SweptTol J a := by
+  have ht := angleTol_bounds.1
+  unfold AngleInterval.intersects at h
+  rcases Bool.or_eq_true_iff.mp h with h | h
+  · exact ⟨J.start, contains_sound I hI _ h, ⟨0, by simp; linarith, by simp; linarith [hJ.2.2.1]⟩⟩
+  · exact ⟨I.start, ⟨0, by simp; linarith, by simp; linarith [hI.2.2.1]⟩, contains_sound J hJ _ h⟩
+
+/-! ### directed angle between two vectors -/
+
+theorem signedAngle_range (v w : V2 ℝ) : -π < signedAngle v w ∧ signedAngle v w ≤ π := by
+  unfold signedAngle
+  exact Complex.arg_mem_Ioc _
+
+theorem directed_range (v w : V2 ℝ) (d : AngleDir) :
+    0 ≤ directedAngle v w d ∧ directedAngle v w d ≤ 2 * π := by
+  have h := signedAngle_range v w
+  have hp := Real.pi_pos
+  have e2 := twoPi_eq
+  unfold directedAngle
+  cases d <;> dsimp only <;> split_ifs <;> constructor <;> linarith
+
+theorem directed_cw_add_ccw (v w : V2 ℝ) :
+    directedAngle v w .cw + directedAngle v w .ccw = 2 * π ∨
+    (directedAngle v w .cw = 0 ∧ directedAngle v w .ccw = 0) := by
+  have e2 := twoPi_eq
+  unfold directedAngle
+  dsimp only
+  rcases lt_trichotomy (signedAngle v w) 0 with h | h | h
+  · left; rw [if_neg (by linarith), if_pos (by linarith), e2]; ring
+  · right; rw [h]; simp
+  · left; rw [if_pos (by linarith), if_neg (by linarith), e2]; ring
+
+/-! ### scalar intervals — for every linearly ordered field -/
+
+section
+variable {F : Type} [Field F] [LinearOrder F] [IsStrictOrderedRing F]
+
+theorem interval_new_ordered (a b : F) :
+    (Interval.new a b).min ≤ (Interval.new a b).max ∧
+    (Interval.new a b).min = min a b ∧ (Interval.new a b).max = max a b := by
+  unfold Interval.new smin smax
+  rcases le_total a b with h | h
+  · simp [h]
+  · rcases eq_or_lt_of_le h with h' | h'
+    · subst h'; simp
+    · simp [not_le.mpr h', h]
+
+theorem interval_contains_iff (I : Interval F) (x : F) :
+    I.contains x = true ↔ I.min ≤ x ∧ x ≤ I.max := by
+  unfold Interval.contains; simp
+
+/-- overlaps ⇔ the two closed sets share a point (for well-formed intervals). -/
+theorem interval_overlaps_iff (I J : Interval F) (hI : I.min ≤ I.max) (hJ : J.min ≤ J.max) :
+    I.overlaps J = true ↔ ∃ x, (I.min ≤ x ∧ x ≤ I.max) ∧ (J.min ≤ x ∧ x ≤ J.max) := by
+  unfold Interval.overlaps
+  simp only [Bool.or_eq_true, interval_contains_iff]
+  constructor
+  · rintro (h | h)
+    · exact ⟨J.min, h, le_refl _, hJ⟩
+    · exact ⟨I.min, ⟨le_refl _, hI⟩, h⟩
+  · rintro ⟨x, ⟨h1, h2⟩, h3, h4⟩
+    rcases le_total I.min J.min with h | h
+    · left; exact ⟨h, h3.trans h2⟩
+    · right; exact ⟨h, h1.trans h4⟩
+
+theorem interval_intersection_comm (I J : Interval F) :
+    (I.intersection J).map (fun K => (K.min, K.max)) = (J.intersection I).map (fun K => (K.min, K.max)) := by
+  unfold Interval.intersection
+  have ho : I.overlaps J = J.overlaps I := by unfold Interval.overlaps; exact Bool.or_comm _ _
+  rw [ho]
+  split_ifs
+  · simp only [Option.map_some, Option.some.injEq, Prod.mk.injEq]
+    have e1 : smax I.min J.min = max I.min J.min := by
+      unfold smax; rcases le_total I.min J.min with h | h
+      · simp [h]
+      · rcases eq_or_lt_of_le h with h' | h'
+        · simp [h']
+        · simp [not_le.mpr h', h]
+    have e2 : smax J.min I.min = max J.min I.min := by
+      unfold smax; rcases le_total J.min I.min with h | h
+      · simp [h]
+      · rcases eq_or_lt_of_le h with h' | h'
+        · simp [h']
+        · simp [not_le.mpr h', h]
+    have e3 : smin I.max J.max = min I.max J.max := by
+      unfold smin; rcases le_total I.max J.max with h | h
+      · simp [h]
+      · rcases eq_or_lt_of_le h with h' | h'
+        · simp [h']
+        · simp [not_le.mpr h', h]
+    have e4 : smin J.max I.max = min J.max I.max := by
+      unfold smin; rcases le_total J.max I.max with h | h
+      · simp [h]
+      · rcases eq_or_lt_of_le h with h' | h'
+        · simp [h']
+        · simp [not_le.mpr h', h]
+    rw [e1, e2, e3, e4, max_comm, min_comm]
+    obtain ⟨_, h1, h2⟩ := interval_new_ordered (max J.min I.min) (min J.max I.max)
+    exact ⟨rfl, rfl⟩
+  · rfl
+
+/-- The intersection is exactly the set of common points (so it is contained in both operands). -/
+theorem interval_intersection_spec (I J K : Interval F) (hI : I.min ≤ I.max) (hJ : J.min ≤ J.max)
+    (h : I.intersection J = some K) (x : F) :
+    (K.min ≤ x ∧ x ≤ K.max) ↔ ((I.min ≤ x ∧ x ≤ I.max) ∧ (J.min ≤ x ∧ x ≤ J.max)) := by
+  unfold Interval.intersection at h
+  split_ifs at h with ho
+  obtain ⟨y, ⟨y1, y2⟩, y3, y4⟩ := (interval_overlaps_iff I J hI hJ).mp ho
+  have hK : K = Interval.new (smax I.min J.min) (smin I.max J.max) := (Option.some.inj h).symm
+  have e1 : smax I.min J.min = max I.min J.min := by
+    unfold smax; rcases le_total I.min J.min with h | h
+    · simp [h]
+    · rcases eq_or_lt_of_le h with h' | h'
+      · simp [h']
+      · simp [not_le.mpr h', h]
+  have e3 : smin I.max J.max = min I.max J.max := by
+    unfold smin; rcases le_total I.max J.max with h | h
+    · simp [h]
+    · rcases eq_or_lt_of_le h with h' | h'
+      · simp [h']
+      · simp [not_le.mpr h', h]
+  obtain ⟨_, k1, k2⟩ := interval_new_ordered (max I.min J.min) (min I.max J.max)
+  have hle : max I.min J.min ≤ min I.max J.max :=
+    le_min (max_le y1 y3 |>.trans (le_refl _) |> fun h => (max_le y1 y3).trans y2) ((max_le y1 y3).trans y4)
+  rw [hK, e1, e3, k1, k2, min_eq_left hle, max_eq_right hle]
+  simp only [max_le_iff, le_min_iff]
+  tauto
+
+theorem interval_clamp_mem (I : Interval F) (hI : I.min ≤ I.max) (x : F) :
+    I.min ≤ I.clamp x ∧ I.clamp x ≤ I.max := by
+  unfold Interval.clamp smax smin
+  split_ifs <;> constructor <;> order
+
+theorem interval_clamp_of_mem (I : Interval F) (x : F) (h1 : I.min ≤ x) (h2 : x ≤ I.max) :
+    I.clamp x = x := by
+  unfold Interval.clamp smax smin
+  split_ifs <;> order
+
+theorem interval_clamp_idem (I : Interval F) (hI : I.min ≤ I.max) (x : F) :
+    I.clamp (I.clamp x) = I.clamp x :=
+  interval_clamp_of_mem I _ (interval_clamp_mem I hI x).1 (interval_clamp_mem I hI x).2
+
+end
+
+/-! ### non-vacuity: concrete inputs satisfying the hypotheses -/
+
+example : Canonical (⟨1, 2⟩ : AngleInterval ℝ) := by
+  have := Real.two_le_pi
+  refine ⟨?_, ?_, ?_, ?_⟩ <;> dsimp only <;> linarith
+example : Swept (⟨1, 2⟩ : AngleInterval ℝ) 2 := ⟨0, by norm_num, by norm_num⟩
+example : ((Interval.new (3 : ℚ) 1).min, (Interval.new (3 : ℚ) 1).max) = (1, 3) := by
+  simp [Interval.new, smin, smax]
+
+end C18
